@@ -357,7 +357,10 @@ var jC08 = reg(&Judge{
 		APIOps: []string{sc.OpStart, sc.OpStop, sc.OpRestart, sc.OpStart, sc.OpStop, sc.OpRestart, sc.OpStopMany}, UnknownNames: true,
 		ShutdownCfg: true,
 		// a start request served while Run() is still spinning the project up
-		Holds: []string{"run.loop"}, HoldOps: []string{sc.OpStart}},
+		Holds: []string{"run.loop"}, HoldOps: []string{sc.OpStart},
+		// requests on instances that still wait for their dependencies, the end of what they wait
+		// for, then further requests on the same process (the C08 judge reads the event log only)
+		RestartPendingOK: true, PendingChurn: true},
 	Oracle: oracle.C08,
 	Classify: func(h *sc.History, x *oracle.Idx) (bool, []string) {
 		var labels []string
@@ -374,6 +377,9 @@ var jC08 = reg(&Judge{
 			st := x.LastStateBefore(a.Step.Proc, a.SeqBefore)
 			if st == "" {
 				st = "none"
+				if sp := h.Scenario.Spec(a.Step.Proc); sp != nil && oracle.PendingInstanceAt(h.Events, a.Step.Proc, a.SeqBefore, !sp.Disabled && !sp.Foreground) {
+					st = "pending"
+				}
 			}
 			labels = append(labels, op+"-on:"+st)
 			if onLive[a.Step.Proc] {
